@@ -79,6 +79,35 @@ fn font_json(f: &BitFont) -> Value {
     json!({"w": f.size.width, "h": f.size.height, "g": g})
 }
 
+/// A user font derived from a built-in one: the densest glyph becomes "all but one pixel", the sparsest "exactly one pixel",
+/// character 219 becomes solid.  Character 32 and the other blank glyphs are left alone.  (Documents with their own fonts
+/// are ordinary - XBin and IcyDraw files embed them; no built-in font has a glyph within 12 pixels of solid.)
+fn derive(fi: &FontInfo, r: &mut StdRng) -> FontInfo {
+    let mut font = fi.font.clone();
+    let (w, h) = (font.size.width.min(8) as u32, font.size.height as usize);
+    let row_full: u8 = if w >= 8 { 0xFF } else { !(0xFFu8 >> w) };
+    let dense = *fi.near_solid.first().unwrap_or(&1);
+    let sparse = *fi.near_blank.first().unwrap_or(&2);
+    if let Some(g) = font.get_glyph_mut(ch(219)) {
+        g.data = vec![row_full; h];
+    }
+    if dense != 219 {
+        if let Some(g) = font.get_glyph_mut(ch(dense)) {
+            g.data = vec![row_full; h];
+            let (y, x) = (r.gen_range(0..h), r.gen_range(0..w));
+            g.data[y] &= !(128u8 >> x);
+        }
+    }
+    if sparse != 219 && sparse != dense && sparse != 32 {
+        if let Some(g) = font.get_glyph_mut(ch(sparse)) {
+            g.data = vec![0; h];
+            let (y, x) = (r.gen_range(0..h), r.gen_range(0..w));
+            g.data[y] |= 128u8 >> x;
+        }
+    }
+    font_info(format!("derived:{}", fi.name), font)
+}
+
 /// Palette: the 16 DOS colours plus extended entries (how the engine stores RGB colours coming from SGR 38/48;2).
 const EXT: [(u8, u8, u8); 6] = [(255, 128, 0), (1, 2, 3), (0, 0, 171), (254, 254, 254), (90, 17, 203), (0, 0, 0)];
 
@@ -223,14 +252,23 @@ pub fn c12(a: &Args) {
     let mut out = Out::create(&a.str("out", "work/C12/trace.ndjson"));
     let seed = a.u64("seed", 0);
     let thorough = a.str("tier", "quick") == "thorough";
-    let fonts = all_fonts();
+    let mut fonts = all_fonts();
+    let n_builtin = fonts.len();
+    // user fonts derived from built-in ones (font 0, an 8x8 font, others rotating with the seed)
+    let n_derived = if thorough { 12 } else { 4 };
+    for i in 0..n_derived {
+        let base = match i { 0 => 0, 1 => 32, _ => (seed as usize * 5 + i * 13) % n_builtin };
+        let mut r = rng(seed, 119_000 + i as u64);
+        let d = derive(&fonts[base], &mut r);
+        fonts.push(d);
+    }
     let mut stats = Stats::default();
     let mut doc = 0usize;
 
     // facts about the built-in fonts the property depends on (reported once, on stderr)
     let bad_space: Vec<&str> = fonts.iter().filter(|f| ones(&f.font, 32).map(|n| n != 0).unwrap_or(false)).map(|f| f.name.as_str()).collect();
     let no_solid = fonts.iter().filter(|f| f.solids.is_empty()).count();
-    eprintln!("c12: {} fonts; fonts whose character 32 is not blank: {:?}; fonts without a solid glyph: {}", fonts.len(), bad_space, no_solid);
+    eprintln!("c12: {} fonts ({n_builtin} built-in); fonts whose character 32 is not blank: {:?}; fonts without a solid glyph: {}", fonts.len(), bad_space, no_solid);
 
     // (1) sweep: every glyph of every built-in font page 0..=42 and every SAUCE font, shuffled, random attributes
     let sweeps = if thorough { 3 } else { 1 };
@@ -264,9 +302,9 @@ pub fn c12(a: &Args) {
             }
         }
     }
-    let n_class_fonts = if thorough { 14 } else { 3 };
+    let n_class_fonts = if thorough { 16 } else { 5 };
     // font 0 (CP437), an 8x8 font, then fonts rotating with the seed
-    let mut class_fonts: Vec<usize> = vec![0, 32];
+    let mut class_fonts: Vec<usize> = vec![0, 32, n_builtin, n_builtin + 1];
     let mut k = seed as usize * 7 + 1;
     while class_fonts.len() < n_class_fonts {
         k = (k + 11) % fonts.len();
